@@ -3,6 +3,7 @@
 set -e
 cd /verif
 export GOFLAGS=-mod=mod GOPROXY=off GOSUMDB=off GOTOOLCHAIN=local
+tools/gen_tables.sh
 ( cd coq && coq_makefile -f _CoqProject -o Makefile >/dev/null && timeout 3000 make -j16 )
 tools/build_driver.sh >/dev/null
 tools/build_harness.sh >/dev/null
